@@ -39,6 +39,7 @@ type Cfg struct {
 	Checksum   uint   `json:"c"`
 	Hint       int64  `json:"h"` // 0 = absent
 	Headerless bool   `json:"hl,omitempty"`
+	SkipBlocks bool   `json:"skip,omitempty"` // the -s option: incompressible blocks are stored
 }
 
 func (c Cfg) String() string {
@@ -118,7 +119,14 @@ func Compress(data []byte, c Cfg, writeSizes []int) (out []byte, st Stage, err e
 			}
 		}
 	}()
-	w, e := kio.NewWriter(sink, c.Transform, c.Entropy, c.BlockSize, c.Jobs, c.Checksum, c.Hint, c.Headerless)
+	var w *kio.Writer
+	var e error
+	if c.SkipBlocks {
+		w, e = kio.NewWriterWithCtx(sink, map[string]any{"transform": c.Transform, "entropy": c.Entropy, "blockSize": c.BlockSize, "jobs": c.Jobs,
+			"checksum": c.Checksum, "fileSize": c.Hint, "headerless": c.Headerless, "skipBlocks": true})
+	} else {
+		w, e = kio.NewWriter(sink, c.Transform, c.Entropy, c.BlockSize, c.Jobs, c.Checksum, c.Hint, c.Headerless)
+	}
 	if e != nil {
 		return nil, StageNew, e
 	}
